@@ -241,6 +241,68 @@ def contextual_orphan_section(ctx):
                 ctx.spec_failure(dict(case, base=base, mark=mark, component=comp), "attachment %r without the contextual anchor, %r with it" % (a, b))
 
 
+def variable_section(ctx):
+    """the property on VARIABLE fonts: three masters on one axis whose base and mark anchors are not monotonic along the axis
+    (two masters agree on a coordinate, the third differs -- in each of the three ways); compileVariableTTF / CFF2 with
+    variable features and with per-master features; the font instantiated at every master's location must attach the mark
+    where that master's anchors coincide"""
+    import ufo2ft
+    from fontTools.ttLib import TTFont
+    from fontTools.varLib import instancer
+    from harness import dsgen
+    rng = ctx.subrng("variable-marks")
+    for i in range(ctx.budget(6, 30)):
+        lib = ["ufoLib2", "defcon"][i % 2]
+        def master(k, agree):
+            # agree: which two masters share the coordinates of 'top' on a / '_top' on the mark: (0,1), (0,2) or (1,2)
+            v = [0, 0, 0]
+            odd = ({0, 1, 2} - set(agree)).pop()
+            v[odd] = 1
+            dx = 20 * v[k]
+            return {"glyphs": [
+                {"name": "a", "unicodes": [0x61], "width": Fr(500 + 10 * k), "components": [], "contours": [[(Fr(0), Fr(0), "line"), (Fr(100 + 5 * k), Fr(0), "line"), (Fr(50), Fr(100), "line")]],
+                 "anchors": [("top", Fr(250 + dx), Fr(500)), ("bottom", Fr(250), Fr(-10 * k))]},
+                {"name": "f_i", "unicodes": [], "width": Fr(600), "components": [], "contours": [[(Fr(0), Fr(0), "line"), (Fr(90 + 5 * k), Fr(0), "line"), (Fr(50), Fr(100), "line")]],
+                 "anchors": [("top_1", Fr(150), Fr(700 + dx)), ("top_2", Fr(450 + 7 * k), Fr(700))]},
+                {"name": "acutecomb", "unicodes": [0x301], "width": Fr(0), "components": [], "contours": [[(Fr(0), Fr(500), "line"), (Fr(40 + k), Fr(500), "line"), (Fr(20), Fr(560), "line")]],
+                 "anchors": [("_top", Fr(20), Fr(480 + dx)), ("top", Fr(20 + dx), Fr(650))]},
+                {"name": "dotbelowcomb", "unicodes": [0x323], "width": Fr(0), "components": [], "contours": [[(Fr(0), Fr(-60), "line"), (Fr(40 + k), Fr(-60), "line"), (Fr(20), Fr(-20), "line")]],
+                 "anchors": [("_bottom", Fr(20), Fr(-20 - dx))]}],
+                "glyphOrder": ["a", "f_i", "acutecomb", "dotbelowcomb"], "kerning": {}, "groups": {},
+                "features": "languagesystem DFLT dflt;\n",
+                "lib": {"public.openTypeCategories": {"a": "base", "f_i": "ligature", "acutecomb": "mark", "dotbelowcomb": "mark"}},
+                "info": {"familyName": "Fam", "styleName": "M%d" % k, "unitsPerEm": 1000, "ascender": 800, "descender": -200}}
+        agree = [(0, 1), (0, 2), (1, 2)][i % 3]
+        masters = [master(k, agree) for k in range(3)]
+        fn = ["compileVariableTTF", "compileVariableCFF2"][(i // 3) % 2]
+        vfeat = i % 2 == 0 or i < 3
+        case = {"function": fn, "variableFeatures": vfeat, "lib": lib, "masters_agreeing_on_the_varied_coordinates": list(agree),
+                "masters": [jsonable(m) for m in masters]}
+        ctx.count(); ctx.klass("variable marks: masters %s agree/%s/vfeat=%s" % (agree, fn, vfeat)); ctx.nontriv(("vm", i, ctx.scale))
+        try:
+            ds, fonts = dsgen.make_designspace(rng, masters, lib, instances=False)
+            vf = getattr(ufo2ft, fn)(ds, variableFeatures=vfeat, useProductionNames=False)
+            b = io.BytesIO(); vf.save(b)
+        except Exception as e:
+            ctx.spec_failure(case, "%s raised %s: %s\n%s" % (fn, type(e).__name__, e, traceback.format_exc()[-1000:]))
+            continue
+        for k, wght in enumerate([100, 500, 900]):
+            inst = instancer.instantiateVariableFont(TTFont(io.BytesIO(b.getvalue())), {"wght": wght})
+            b2 = io.BytesIO(); inst.save(b2)
+            lay = Layout(TTFont(io.BytesIO(b2.getvalue())))
+            lk = lay.lookups_for("DFLT", {"mark", "mkmk"})
+            by = {g["name"]: dict((a[0], (a[1], a[2])) for a in g["anchors"]) for g in masters[k]["glyphs"]}
+            for base, banchor, mark, manchor, comp in (("a", "top", "acutecomb", "_top", None), ("a", "bottom", "dotbelowcomb", "_bottom", None),
+                                                       ("f_i", "top_1", "acutecomb", "_top", 0), ("f_i", "top_2", "acutecomb", "_top", 1),
+                                                       ("acutecomb", "top", "acutecomb", "_top", None)):
+                want = (int(by[base][banchor][0] - by[mark][manchor][0]), int(by[base][banchor][1] - by[mark][manchor][1]))
+                got = lay.mark_attach(lk, base, mark, comp)
+                if got is None or tuple(got[:2]) != want:
+                    ctx.spec_failure(dict(case, master=k, base=base, mark=mark, component=comp),
+                                     "at master %d's location %s attaches to %s%s by %r; that master's anchors coincide at %r" % (
+                                         k, mark, base, "" if comp is None else " (component %d)" % comp, got and got[:2], want))
+
+
 def mark_class_section(ctx):
     """_makeMarkClassDefinitions against Mark/MarkClasses.v: feature files that already define mark classes -- under the
     name the writer generates (@MC_top), under its first fallback (@MC_top_1), under other names -- holding some of the
@@ -333,6 +395,7 @@ def mark_class_section(ctx):
 
 def explore(ctx):
     mark_class_section(ctx)
+    variable_section(ctx)
     contextual_orphan_section(ctx)
     color_graph_section(ctx)
     import ufo2ft
